@@ -4,10 +4,11 @@
                   (extracted coq/Gen/GenCompile.v)                                   -> kind "model"
      X line     : the AST the independent translator (tools/pest2v.py) read from grammar.pest, to be
                   equal to the AST pest_meta read (A line)                           -> kind "model"
-     D lines    : checked-in parser vs pest_vm on parse_and_optimize(grammar.pest) [vs a compiled fresh
-                  derive]                                                            -> kind "spec"
+     D lines    : checked-in parser vs pest_vm on parse_and_optimize(grammar.pest) [vs compiled freshly
+                  generated parsers, one further column each]                        -> kind "spec"
                   checked-in parser vs exec over gen_env of the optimized meta-grammar -> kind "model"
-   argv.(1): texts longer than this many bytes are not run through the model (unary positions). *)
+   argv.(1): texts longer than this many bytes are not run through the model (unary positions); -1: no model runs
+             (the targeted search: its oracle is the real code only). *)
 open Runner_common
 open Gen_model
 open Gen_common
@@ -34,6 +35,7 @@ let () =
       if !mismatches > before then Printf.printf "WHICH\t%s\n" (if k = "T" then "checked-in meta/src/grammar.rs" else "fresh derive_parser output")
     | "TE" :: x :: os :: msg :: rest ->
       incr tv; report "read" (Printf.sprintf "x=%s og=%s what=%s" x os (String.concat " " rest)) msg "a Rust file made of the shapes of generator.rs"
+    | "STAGES" :: _ -> print_endline line
     | ["GE"; msg] -> report "spec" "grammar.pest" msg "accepted by pest_meta"
     | ["G"; _; _; os; _] ->
       og := ogrammar_of os; osexp := os;
@@ -44,9 +46,9 @@ let () =
       let a = norm a and b = norm b in
       let case = Printf.sprintf "r=%s in=%s" rule inp in
       if a <> b then begin incr spec; report "spec" (case ^ " against=vm") a b end;
-      (match rest with
-       | [c] -> incr fresh; let c = norm c in if a <> c then begin incr spec; report "spec" (case ^ " against=fresh") a c end
-       | _ -> ());
+      (* further columns: freshly generated parsers (1st: the token stream of the in-tree derive_parser compiled as source; 2nd: #[derive(Parser)]) *)
+      List.iteri (fun i c -> incr fresh; let c = norm c in
+        if a <> c then begin incr spec; report "spec" (case ^ (if i = 0 then " against=fresh" else " against=fresh-derive")) a c end) rest;
       if String.length inp / 2 <= maxmodel then begin
         incr modelled;
         let input = unhex inp in
